@@ -284,3 +284,17 @@ prop("C10",
      technique="explicit-state breadth-first search with de-duplication over the real ThreadAllocInfo driven through the real AllocProfiler<Mock>; whole-history reference model in every state; loom DPOR for the per-thread clause",
      text="BFS over the real thread-local tally: transitions are alloc / alloc_zeroed / dealloc / realloc over five sizes plus clear, applied by the real profiler after setting the thread-local to the state; in every reached state all four (count, bytes) pairs, the live balances and the peak count / peak size must equal a reference recomputed from the whole history (prefix-balance scan). Under loom, threads drive the real profiler concurrently and each thread's tally must equal its own script.",
      note="Trusted: hook tally_get/tally_set (plain-data mirror of ThreadAllocInfo), the mock allocator, the reference in harness/mc-seq/src/bin/c10.rs; loom thread-local facade for the cross-thread clause.", engine="S+L")
+
+
+prop("C16",
+     quick=[{"engine": "S", "bin": "c16", "parts": 4}],
+     thorough=[{"engine": "S", "bin": "c16", "parts": 8, "timeout": 3000}],
+     assumptions=[
+         "natural_cmp: all 2801 strings of length <= 4 over {0,1,9,a,B,_,e-acute}; transitivity on all triples of the length <= 3 subset (all length <= 4 triples in thorough)",
+         "argument labels: 40-label alphabet (22 numeric incl. negatives, floats, integers beyond 2^53 and 2^64; 10 identifiers; 8 odd spellings); lists of length <= 4 (5 thorough) over four 6-7 label pools; mixed numeric / non-numeric lists are checked for permutation, exact reverse and no panic only (the statement defines no order for them)",
+         "sibling sets of <= 3 (4 thorough) nodes over 6 node kinds x 5 names x 3 location layouts; distinct items never share an exact file:line:column",
+         "'kind' is taken as the implementation's leaf / parent split (a generic benchmark is a parent)",
+     ],
+     technique="bounded-exhaustive enumeration of names, argument labels, argument lists and sibling sets on the real comparators and EntryTree::sort_by_attr; total-preorder axioms on all triples; reference key order",
+     text="natural_cmp is compared with a token-list reference on every pair and checked for reflexivity, antisymmetry and transitivity on all triples; the runtime-argument comparator must equal exact value order on numeric labels and natural order on identifiers and be a total preorder on all triples over the whole alphabet (failures are turned into concrete 24-element lists sorted by the real tree code); all short argument lists and all small sibling sets are sorted through the real tree for the 3 attributes x 2 directions and compared with the reference order, as permutations with original argument indices, and --sortr with the exact reverse.",
+     note="Trusted: hook wrappers natural_cmp / cmp_arg_names / tree (src/verif.rs) and the references in harness/mc-seq/src/bin/c16.rs.", engine="S")
